@@ -17,7 +17,9 @@ META = {
         "recorded' (on entry of the user function, before/after the backend calls) for the first AND the retry attempts "
         "x schedules x backend flags. Oracle: entry counter keyed by (position, backend attempt counter at entry) <= 1; at "
         "every entry the backend already holds the step as STARTED for that attempt (start durably recorded first). "
-        "Non-trivial = an invocation died strictly inside an at-most-once attempt; extra class: inside attempt >= 2; "
+        "Plus fault enumeration: eight fixed programs (at-most-once step in child/map/parallel, after an asynchronous record, after 0.15 s of plain computation so that its START is queued behind a call in flight, "
+        "retrying) x backend latency 0/0.2 s x every backend call of the first three invocations failing once (2 classes x "
+        "request/response lost). Non-trivial = an invocation died strictly inside an at-most-once attempt; extra class: inside attempt >= 2; "
         "distinct = (program shape, crash plan, invocation outcomes)."
     ),
     "assumptions": ["the backend's attempt counter = number of accepted RETRY records (DESIGN.md §6)"],
@@ -128,4 +130,43 @@ def _enumerate_inside_attempts(ctx):
     ctx.extra["crash_points_enumerated"] = count[0]
 
 
-install(globals(), props=("C04",), cases=cases, nontrivial=nontrivial, classes=classes, stages=(_enumerate_inside_attempts,))
+def _M(v=1, **k):
+    return {"op": "step", "beh": {"kind": "ret", "v": v}, "sem": "most", "retry": k.pop("retry", {"kind": "none"}), **k}
+
+
+def _L(v=2, **k):
+    return {"op": "step", "beh": {"kind": "ret", "v": v}, "sem": "least", "retry": {"kind": "none"}, **k}
+
+
+_Z = {"op": "sleep", "secs": 0.15}
+
+FAULT_BASES = [
+    ("child{at-most-once step}", [{"op": "child", "body": [_M()]}]),
+    ("child{compute 0.15 s; at-most-once step}", [{"op": "child", "body": [_Z, _M()]}]),
+    ("step; compute 0.15 s; at-most-once step", [_L(), _Z, _M()]),
+    ("parallel{compute; at-most-once | at-least-once}", [{"op": "parallel", "branches": [[_Z, _M()], [_L()]], "cfg": {"completion": {"min": None, "tol": 2, "pct": None}}}]),
+    ("step; at-most-once step", [_L(), _M()]),
+    ("parallel{at-most-once | at-least-once(slow)}", [{"op": "parallel", "branches": [[_M()], [_L(sleep=0.3)]], "cfg": {"completion": {"min": None, "tol": 2, "pct": None}}}]),
+    ("map{at-most-once}", [{"op": "map", "items": [1, 2], "body": [_M()], "cfg": {"max_concurrency": None, "completion": {"min": None, "tol": 2, "pct": None}}}]),
+    ("at-most-once retrying step (2 attempts)", [{"op": "step", "beh": {"kind": "fail_by_attempt", "k": 1, "err": "UserError", "v": 1}, "sem": "most",
+                                                   "retry": {"kind": "table", "max": 3, "delays": [1], "nonretry": []}}]),
+]
+
+
+def _fault_stage(ctx):
+    """Fault enumeration with calls in flight (backend latency 0 / 0.2 s): every backend call of the first three
+    invocations fails once while an at-most-once START may be queued behind it."""
+    from .. import wfcheck as WC
+
+    total = 0
+    for i, (label, body) in enumerate(FAULT_BASES):
+        if ctx.nshards > 1 and i % ctx.nshards != ctx.shard % ctx.nshards:
+            continue
+        for lat in (0.0, 0.2):
+            base = {"prog": {"body": body}, "backend": {"response": "delta", "api_latency": lat}, "plan": {"crashes": [], "faults": []}, "sched": [{"mode": "seq"}], "line": [], "max_raises": 3}
+            total += WC.enumerate_faults(ctx, base, PROPS, nontrivial=nontrivial, classes=lambda r, c: ["fault-enumeration"] + classes(r, c),
+                                         fault_classes=("server5xx", "client4xx"), limit=80)
+    ctx.extra["fault_points_enumerated"] = total
+
+
+install(globals(), props=("C04",), cases=cases, nontrivial=nontrivial, classes=classes, stages=(_enumerate_inside_attempts, _fault_stage))
